@@ -56,6 +56,9 @@ func letValue(rt *rapid.T, g *gen.G, t gen.Type, scope []bindSpec) (gen.Expr, st
 		if t == gen.TInt && k == 6 {
 			return &gen.Binary{Op: rapid.SampledFrom([]string{"+", "-", "*"}).Draw(rt, "letop"), X: gen.ID(b.name), Y: &gen.Num{Text: "1"}}, "compound-over-reference"
 		}
+		if rapid.IntRange(0, 3).Draw(rt, "refparen") == 0 {
+			return &gen.Paren{X: gen.ID(b.name)}, "reference-parenthesised"
+		}
 		return gen.ID(b.name), "reference"
 	}
 	switch t {
